@@ -23,7 +23,8 @@ compile and the proof obligation breaks):
                if c { block }                   (no else, followed by more statements)
                let pat = match s { .. };        arms give the value, or `return`
                continue;
-               while c { block }                a loop: a function of its own, recursive on fuel
+               while c { block }   loop { block }    a loop: a function of its own, recursive on fuel
+               if c { block } else { block }    as a statement
   tail         match s { pat => tail | block , ... }
                if c { block } else { block }            a pure expression
   conditions c a == b, a < b, a > b, a <= b, a >= b, x.is_empty(), a bool field or variable, !c, c || c, c && c
@@ -62,7 +63,10 @@ Semantics given to it (the trusted part of this translator):
     fuel is enough; with too little the result is VStuck);
   * `o.context(XSnafu)` on an Option is Ok(v) / Err(Error::X), on a Result Ok(v) / Err(Error::X(e));
     a method of a parameter named in the group's "handles" (`stream.write(..)`, `entry.insert(..)`)
-    is a stateful external that receives the handle, the arguments and self;
+    is a stateful external that receives the handle, the arguments and self; so is a call named in
+    the group's "stateful_calls" (a closure parameter with effects, a parser that counts), and a
+    chain of calls on a stateful field (self.buf.prepare_reserve(n).read_from(s)) is one stateful
+    external named by the chain; a constant of another crate is an external value;
   * `as usize` / `as u64` casts are dropped (u64 -> usize is the identity on the 64-bit targets the
     crate is built for here); Vec::with_capacity(n) is the empty vector (capacity is not
     observable); `.clone()` and `&` / `*` are the identity on values.
@@ -232,6 +236,11 @@ class Parser:
                 body = self.block()
                 stmts.append(("while", c, body))
                 continue
+            if tok == "loop":
+                self.eat()
+                body = self.block()
+                stmts.append(("while", ("true",), body))
+                continue
             # x += e;
             if re.match(r"[a-z_][a-z0-9_]*$", tok) and tok not in ("self", "match", "if", "let", "return") and self.peek(1) == "+" and self.peek(2) == "=":
                 x = self.eat(); self.eat("+"); self.eat("=")
@@ -251,6 +260,14 @@ class Parser:
                 c = self.cond()
                 body = self.block()
                 stmts.append(("ifstmt", c, body))
+                continue
+            if tok == "if" and self.peek(1) != "let" and self.if_else_is_statement():
+                self.eat()
+                c = self.cond()
+                body = self.block()
+                self.eat("else")
+                els = self.block()
+                stmts.append(("ifelsestmt", c, body, els))
                 continue
             if tok == "if" and self.peek(1) == "let":
                 self.eat(); self.eat()
@@ -299,6 +316,28 @@ class Parser:
                     break
             j += 1
         return j + 1 < len(self.t) and self.t[j + 1] != "else"
+
+    def if_else_is_statement(self):
+        """an `if c { .. } else { .. }` that is followed by more of the block, or whose branches have no value"""
+        j = self.i
+        def skip_block(j):
+            while self.t[j] != "{":
+                j += 1
+            depth = 0
+            while True:
+                if self.t[j] == "{":
+                    depth += 1
+                elif self.t[j] == "}":
+                    depth -= 1
+                    if depth == 0:
+                        return j + 1
+                j += 1
+        j = skip_block(j)
+        if j >= len(self.t) or self.t[j] != "else" or self.t[j + 1] != "{":
+            return False
+        k = skip_block(j + 1)
+        # followed by more statements, or the else block ends in `;` / `}` before its brace (no tail value)
+        return self.t[k] != "}" or self.t[k - 2] in (";", "}")
 
     def cond(self):
         c = self.cond1()
@@ -596,6 +635,8 @@ class Gen:
         self.again = []
         self.handles = set()
         self.fuelcalls = set()
+        self.stcalls = set()
+        self.stcalls = set()
         self.ty = " * ".join(["val"] * (len(threaded) + 1))
 
     def fresh(self, base):
@@ -635,7 +676,11 @@ class Gen:
             return "(v_drop %s %s)" % (self.e(x[2], env), self.e(x[1], env))
         if k == "ctor":
             if x[1].isupper() and "::" not in x[1] and not x[2]:
-                return "(VN %d)" % const_value(self.src, x[1])
+                try:
+                    return "(VN %d)" % const_value(self.src, x[1])
+                except Fail:
+                    # a constant of another crate: an external value
+                    return "(ext %s [])" % cstr(x[1])
             if x[1].endswith("Snafu"):
                 raise Fail("snafu selector outside .fail()")
             return "(VC %s [%s])" % (cstr(x[1]), "; ".join(self.e(a, env) for a in x[2]))
@@ -650,6 +695,10 @@ class Gen:
                 return "(v_min %s %s)" % (self.e(args[0], env), self.e(args[1], env))
             if p in ("u32::from", "u64::from", "usize::from", "u16::from") and len(args) == 1:
                 return self.e(args[0], env)
+            if p in ("usize::max", "u32::max", "u64::max", "std::cmp::max") and len(args) == 2:
+                return "(v_max %s %s)" % (self.e(args[0], env), self.e(args[1], env))
+            if p in self.stcalls:
+                raise Fail("stateful call %s used as a pure value" % p)
             if p == "T::new":
                 # the associated function of the type parameter: what it builds depends on T
                 return "(t_new [%s])" % "; ".join(self.e(a, env) for a in args)
@@ -683,6 +732,8 @@ class Gen:
     def cond(self, c, env):
         if c[0] == "not":
             return "(negb %s)" % self.cond(c[1], env)
+        if c[0] == "true":
+            return "true"
         if c[0] == "or":
             return "(%s || %s)" % (self.cond(c[1], env), self.cond(c[2], env))
         if c[0] == "and":
@@ -706,7 +757,21 @@ class Gen:
                 out.append(st[1])
             if st[0] in ("ifstmt", "while"):
                 out += [v for v in self.assigned(st[2]) if v not in out]
+            if st[0] == "ifelsestmt":
+                out += [v for v in self.assigned(st[2]) + self.assigned(st[3]) if v not in out]
         return out
+
+    def stateful_chain(self, x):
+        """self.<..>.f.a(x).b(y) with f a stateful field: (name "f.a.b", [x; y]) or None"""
+        if x[0] != "method":
+            return None
+        recv, m, args = x[1], x[2], x[3]
+        if self.stateful_recv(recv):
+            return ("%s.%s" % (recv[2], m), list(args))
+        inner = self.stateful_chain(recv)
+        if inner is None:
+            return None
+        return ("%s.%s" % (inner[0], m), inner[1] + list(args))
 
     def stateful_recv(self, recv):
         """self.<..>.<f> with f one of the group's stateful fields"""
@@ -723,6 +788,8 @@ class Gen:
         k = x[0]
         if k in ("try", "matchexpr"):
             return True
+        if k == "call" and x[1] in self.stcalls:
+            return True
         if k == "cast16":
             return self.effectful(x[1])
         if k == "method":
@@ -730,6 +797,8 @@ class Gen:
             if recv == ("var", "self") and m in self.calls and self.calls[m] in self.mutcalls:
                 return True
             if self.stateful_recv(recv) and m not in ("len", "is_empty"):
+                return True
+            if self.stateful_chain(x) is not None and not self.stateful_recv(recv):
                 return True
             if recv[0] == "var" and recv[1] in self.handles:
                 return True
@@ -758,6 +827,14 @@ class Gen:
             return self.ev(x[1], env, after)
         if kind == "matchexpr":
             return self.match(x[1], env, k)
+        if kind == "call" and x[1] in self.stcalls:
+            if "self" not in self.threaded:
+                raise Fail("stateful call in a function that does not take &mut self")
+            n, v = self.fresh("self"), self.fresh("v")
+            env2 = dict(env)
+            env2["self"] = n
+            return "let '(%s, %s) := ext_st %s [%s] %s in\n%s" % (
+                n, v, cstr(x[1]), "; ".join(self.e(a, env) for a in x[2]), env["self"], k(env2, v))
         if kind == "cast16":
             return self.ev(x[1], env, lambda env2, v: k(env2, "(v_u16 %s)" % v))
         if kind == "method":
@@ -805,6 +882,13 @@ class Gen:
                 env2["self"] = n
                 return "let '(%s, %s) := ext_st %s [%s] %s in\n%s" % (
                     n, v, cstr("%s.%s" % (recv[1], m)), "; ".join([env[recv[1]]] + [self.e(a, env) for a in args]), env["self"], k(env2, v))
+            if not self.stateful_recv(recv) and self.stateful_chain(x) is not None:
+                name, cargs = self.stateful_chain(x)
+                n, v = self.fresh("self"), self.fresh("v")
+                env2 = dict(env)
+                env2["self"] = n
+                return "let '(%s, %s) := ext_st %s [%s] %s in\n%s" % (
+                    n, v, cstr(name), "; ".join(self.e(a, env) for a in cargs), env["self"], k(env2, v))
             if self.stateful_recv(recv):
                 if "self" not in self.threaded:
                     raise Fail("channel operation in a function that does not take &mut self")
@@ -909,6 +993,10 @@ class Gen:
         if kind == "ifstmt":
             _, c, body = s
             return "(if %s then\n%s\nelse\n%s)" % (self.cond(c, env), self.block(body, env, lambda env2, _v: cont(env2)), cont(env))
+        if kind == "ifelsestmt":
+            _, c, body, els = s
+            return "(if %s then\n%s\nelse\n%s)" % (self.cond(c, env), self.block(body, env, lambda env2, _v: cont(env2)),
+                                                     self.block(els, env, lambda env2, _v: cont(env2)))
         if kind == "while":
             # a loop is a function of its own, recursive on fuel, of every variable in scope: those the
             # body rebinds (and the threaded ones) change from one round to the next; what follows the
@@ -1011,7 +1099,7 @@ class Gen:
         raise Fail("pattern %r" % (p,))
 
 
-def translate(src, name, calls, effects, chans=(), mutcalls=None, handles=(), fuelcalls=None):
+def translate(src, name, calls, effects, chans=(), mutcalls=None, handles=(), fuelcalls=None, stcalls=()):
     fn_only = name.split(".")[-1]
     p = Parser(tokenize(find_fn(src, name)), fn_only)
     fname, params, mutself, body = p.fn()
@@ -1022,6 +1110,7 @@ def translate(src, name, calls, effects, chans=(), mutcalls=None, handles=(), fu
     g = Gen(src, calls, threaded, fn_only, cname, chans, mutcalls or ())
     g.handles = set(handles)
     g.fuelcalls = fuelcalls if fuelcalls is not None else set()
+    g.stcalls = set(stcalls)
     env = {x: x for x in params}
     text = g.block(body, env, lambda env2, v: g.ret(v, env2))
     ty = " * ".join(["val"] * (len(threaded) + 1))
@@ -1065,6 +1154,7 @@ if __name__ == "__main__":
     effects = spec.get("effects", [])
     chans = spec.get("channels", [])
     handles = spec.get("handles", [])
+    stcalls = spec.get("stateful_calls", [])
     mutcalls = set()
     fuelcalls = set()
     out = [HEADER % ", ".join(sorted(set(p for p, _ in fns)))]
@@ -1074,7 +1164,7 @@ if __name__ == "__main__":
         # a call may only go to a function translated before it
         avail = {m: c for m, c in calls.items() if c in done}
         try:
-            out.append("(* ---- %s :: %s ---- *)\n" % (path, n) + translate(open(path).read(), n, avail, effects, chans, mutcalls, handles, fuelcalls))
+            out.append("(* ---- %s :: %s ---- *)\n" % (path, n) + translate(open(path).read(), n, avail, effects, chans, mutcalls, handles, fuelcalls, stcalls))
             done.add("gen_" + n.replace(".", "_"))
         except (Fail, OSError) as ex:
             ok = False
